@@ -1,16 +1,61 @@
 import PoryProofs.GotoNext
+import PoryProofs.FwdUnique
 /-
-C05c — PLACEHOLDER HEADER (rewritten at the end)
+C05c — the textual clause of C05: "In either form (-optimize on or off) no compiler-generated goto
+targets the label on the very next line and no generated sub-label is emitted that nothing refers
+to."  Everything is about `emitScript o patches tl s = .ok lines`, for every option set `o` (both
+values of `o.optimize`, line markers on or off), patches and text labels.
+
+"Next line": `GotoNext.nextVisible post` — the first line after the `goto` that is neither
+`.blank` nor a `.marker`.  Generated jumps are the `goto_` lines (a user-written `goto(L)` is a
+`Line.command`).
+
+1. NO GOTO TO THE NEXT LABEL
+* `no_goto_to_next_label` (MAIN, both orders): for a script whose `break` / `continue` are well
+  scoped (`ScopesWellFormed`) and whose scope ids are pairwise distinct (`ScopeIdsDistinct`) — both
+  guaranteed by the parser — if `lines = pre ++ .goto_ L :: post` then the next visible line of
+  `post` is not `.labelDef L g`.  `no_goto_to_next_label_idx`: the same with `lines[k]?`.
+* `no_goto_to_next_label_opt`: with `o.optimize = true` the statement holds for EVERY script `s`
+  (no hypothesis on the AST), because the optimised order follows tails (`GotoNext.tail_follow`).
+* `no_goto_to_next_label_of_fwdUnique`: both orders, from the table property `FwdUnique` alone.
+* `no_goto_to_next_chunk` (every script, both orders; the chunk-level form): a `goto_ L` line is
+  the exit of a chunk `k` of the order towards `d = tailId k`, `L = name_d`, `d ≠ 0`; it is followed
+  by a blank line and the layout of the remaining chunks, the first of which (if any) is not `d`,
+  and whose label line (if present) is therefore not `L:`.
+* FALSE WITHOUT THE SCOPING HYPOTHESIS (`unscoped_counterexample`, `no_goto_to_next_label_full`
+  is refuted by `not_no_goto_to_next_label_full`): for the ill-scoped AST `cexScript` (a `continue`
+  that names a loop it is not inside of — the parser cannot produce it) the unoptimised output
+  contains `goto s_6`, a blank line, `s_6:`.  Reason: the dead chunk after a `continue` renders to
+  nothing (no label, no statements, falls through), so the chunk laid out before it is followed by
+  the label of the chunk after it.  `FwdUnique` (PoryProofs/FwdUnique.lean) is exactly what
+  excludes this, and it needs the `break` / `continue` targets to be allocated before the chunk.
+
+2. NO UNREFERENCED SUB-LABEL
+* `sub_label_referenced` (MAIN, both orders): if every condition leaf of the script renders a
+  conditional jump (`LeavesL RefLeaf s.body`; true for parser-built leaves: `sub_label_referenced_wf`
+  takes `LeavesL Spec.WellFormedLeaf s.body`), then for every chunk id `id ≠ 0` of the table: if the
+  line `name_id:` is among `lines` then some generated jump / `case` line of `lines` names `name_id`
+  (`C04.refOf l = some (jumpLabel s.name id)`).  A user label statement cannot be such a line:
+  `renderStatements` rejects user labels that clash with chunk labels.
+* `every_label_accounted`: every label line of `lines` is the script's own label, a user label
+  statement of a chunk, or is named by a generated jump / `case` line.
+* FALSE WITHOUT THE LEAF HYPOTHESIS (`badLeaf_counterexample`): a leaf whose `type` is not
+  FLAG / VAR / DEFEATED (or a VAR leaf with an operator outside `varCompareOpcode`) registers its
+  `true` target but renders no jump, so the label `s_2:` is emitted and nothing names it.  The
+  parser never builds such leaves.
+
+3. Whole programs (`emitProgram`): NOT lifted.  The first statement does not lift without a
+   global label-uniqueness hypothesis: the line after the last blank line of a script is the label
+   of the next top-level statement, which may be *named* `s_3`.
+
+Nothing is `sorry`; nothing is partial beyond what is said above (3 is optional and omitted).
+Helper files: PoryProofs/GotoNext.lean (rendering shape, layout decomposition, tail-following of
+the optimised order, the abstract theorems), PoryProofs/FwdUnique.lean (the worklist invariant).
 -/
 namespace Pory.C05c
 open Pory Pory.Emit Pory.RenderSim Pory.GotoNext
 
 /-! ### the facts about one successful `emitScript` that the proofs use -/
-
-/-- Forward tail edges of the chunk table are unique: two chunks whose `tailId` is the same chunk
-`d` with a larger id than both are the same chunk. -/
-def FwdUnique (G : List Chunk) : Prop :=
-  ∀ a ∈ G, ∀ b ∈ G, ∀ d, tailId a = some d → tailId b = some d → a.id < d → b.id < d → a.id = b.id
 
 structure EmitFacts (o : Opts) (patches : List ((Nat × Nat) × String)) (s : Script)
     (lines : List Line) (chunks : List Chunk) (order : List Nat) : Prop where
@@ -133,7 +178,7 @@ theorem no_goto_to_next_label_opt (o : Opts) (patches : List ((Nat × Nat) × St
     (hx_optimized F.zero ho F.perm F.nodup F.found)
 
 /-- Statement 1, **either order**, for scripts whose chunk table has unique forward tail edges
-(`FwdUnique`; see `FwdUnique.lean`/`scriptChunks_fwdUnique` for when this holds). -/
+(`Emit.FwdUnique`, proved for well-scoped scripts in PoryProofs/FwdUnique.lean: `scriptChunks_fwdUnique`). -/
 theorem no_goto_to_next_label_of_fwdUnique (o : Opts) (patches : List ((Nat × Nat) × String))
     (tl : List String) (s : Script) (lines : List Line)
     (hfu : ∀ chunks, scriptChunks s.body = .ok chunks → FwdUnique chunks)
@@ -150,5 +195,351 @@ theorem no_goto_to_next_label_of_fwdUnique (o : Opts) (patches : List ((Nat × N
       exact this.symm
     exact no_goto_next_of o patches s.name chunks _ _ order lines F.hls F.closed F.found F.hyg
       (hx_sorted (hfu chunks F.hc) (ho ▸ C05.sortNat_sorted _) F.nodup F.found)
+
+/-- **Statement 1 (main theorem), either order**: for a script with well-scoped `break` /
+`continue` and pairwise distinct scope ids (parser guarantees), the first line after a generated
+`goto L` that is neither blank nor a line marker is not the label line `L:`. -/
+theorem no_goto_to_next_label (o : Opts) (patches : List ((Nat × Nat) × String))
+    (tl : List String) (s : Script) (lines : List Line)
+    (hs : ScopeIdsDistinct s.body) (hw : ScopesWellFormed s.body)
+    (he : emitScript o patches tl s = .ok lines) :
+    ∀ pre post L, lines = pre ++ .goto_ L :: post → ∀ g, nextVisible post ≠ some (.labelDef L g) :=
+  no_goto_to_next_label_of_fwdUnique o patches tl s lines
+    (fun chunks hc => scriptChunks_fwdUnique s.body chunks hs hw hc) he
+
+theorem split_at_index {α} : ∀ (l : List α) (k : Nat) (x : α), l[k]? = some x →
+    l = l.take k ++ x :: l.drop (k + 1) := by
+  intro l
+  induction l with
+  | nil => intro k x h; simp at h
+  | cons a r ih =>
+    intro k x h
+    cases k with
+    | zero => simp at h; simp [h]
+    | succ k =>
+      simp only [List.getElem?_cons_succ] at h
+      have := ih k x h
+      simp only [List.take_succ_cons, List.drop_succ_cons, List.cons_append]
+      rw [← this]
+
+/-- Statement 1 with line indices: if line `k` is `goto L`, the next visible line after it is not
+`L:`. -/
+theorem no_goto_to_next_label_idx (o : Opts) (patches : List ((Nat × Nat) × String))
+    (tl : List String) (s : Script) (lines : List Line)
+    (hs : ScopeIdsDistinct s.body) (hw : ScopesWellFormed s.body)
+    (he : emitScript o patches tl s = .ok lines) :
+    ∀ k L, lines[k]? = some (.goto_ L) → ∀ g, nextVisible (lines.drop (k + 1)) ≠ some (.labelDef L g) :=
+  fun k L hk g => no_goto_to_next_label o patches tl s lines hs hw he _ _ L (split_at_index lines k _ hk) g
+
+/-- Statement 1, **chunk-level form, every script, either order**: a generated `goto L` is the
+exit of a chunk `k` towards its tail `d ≠ 0` with `L = name_d`; what follows is a blank line and
+the layout of the remaining chunks; the chunk laid out next (if any) is not `d`, and its label
+line — `chunkLabel name id'`, if it is there at all — is not `L:`. -/
+theorem no_goto_to_next_chunk (o : Opts) (patches : List ((Nat × Nat) × String))
+    (tl : List String) (s : Script) (lines : List Line) (he : emitScript o patches tl s = .ok lines) :
+    ∃ chunks order, scriptChunks s.body = .ok chunks ∧ C05.chunkOrder o chunks = .ok order ∧
+      ∀ pre post L, lines = pre ++ .goto_ L :: post →
+        ∃ opre k orest d, order = opre ++ k :: orest ∧ tailId (chunkOf chunks k) = some d ∧ d ≠ 0 ∧
+          L = jumpLabel s.name d ∧
+          post = .blank :: layout o patches s.name chunks (s.scope == .GLOBAL)
+            (regsOf o patches s.name chunks order) orest ∧
+          ∀ id', orest.head? = some id' → id' ≠ d ∧
+            ∀ g, Line.labelDef L g ∉ lbl s.name (s.scope == .GLOBAL) (regsOf o patches s.name chunks order) id' := by
+  obtain ⟨chunks, order, F⟩ := emit_facts o patches tl s lines he
+  refine ⟨chunks, order, F.hc, F.ho, ?_⟩
+  intro pre post L hsplit
+  rw [F.hls] at hsplit
+  obtain ⟨opre, k, orest, d, hord, htail, hnext, hL, hpost⟩ :=
+    goto_in_layout o patches s.name chunks _ _ order pre post L hsplit
+  have hk : k ∈ order := by rw [hord]; simp
+  have hkG : chunkOf chunks k ∈ chunks := List.mem_of_find?_eq_some (F.found k hk)
+  obtain ⟨hd0, _⟩ := F.closed _ hkG d (tailId_mem_targets htail)
+  refine ⟨opre, k, orest, d, hord, htail, hd0, hL, hpost, ?_⟩
+  intro id' hid'
+  have hne : id' ≠ d := by
+    intro e; subst e
+    exact hnext hid'.symm
+  refine ⟨hne, ?_⟩
+  intro g hm
+  unfold lbl at hm
+  split at hm
+  · simp only [List.mem_singleton, Line.labelDef.injEq] at hm
+    have hjl : jumpLabel s.name d = chunkLabel s.name d := by simp [chunkLabel, jumpLabel, hd0]
+    exact hne (labelsInjective s.name id' d (by rw [← hm.1, hL, hjl]))
+  · simp at hm
+
+/-! ### the scoping hypothesis of statement 1 cannot be dropped -/
+
+/-- An ill-scoped AST (the parser cannot produce it): the `continue`s with scope id 9 are not
+inside the loop with scope id 9. -/
+def cexScript : Script :=
+  { name := "s",
+    body := [ .switch_ {} 1 { lit := "VAR_0" }
+      [ ({ lit := "1" }, false, [.cont {} 1, .cont {} 9]),
+        ({ lit := "2" }, false, [.while_ {} 9 none []]),
+        ({ lit := "3" }, false, [.cont {} 9]) ] ] }
+
+def cexLines : List Line :=
+  [ .labelDef "s" true, .labelDef "s_1" false, .switch_ "VAR_0", .case_ "1" "s_2", .case_ "2" "s_3",
+    .case_ "3" "s_4", .terminator false, .blank,
+    .labelDef "s_2" false, .goto_ "s_1", .blank,
+    .labelDef "s_3" false, .goto_ "s_6", .blank,
+    .labelDef "s_4" false, .goto_ "s_6", .blank,
+    .labelDef "s_6" false, .goto_ "s_6", .blank ]
+
+theorem cex_emit : emitScript { optimize := false } [] [] cexScript = .ok cexLines := by rfl
+
+/-- **Counterexample**: without `-optimize`, the ill-scoped `cexScript` is compiled to
+`… goto s_6`, a blank line, `s_6: …` (chunk 5, the dead code after the first `continue`, renders
+to nothing). -/
+theorem unscoped_counterexample :
+    emitScript { optimize := false } [] [] cexScript = .ok cexLines ∧
+    cexLines[15]? = some (.goto_ "s_6") ∧
+    nextVisible (cexLines.drop 16) = some (.labelDef "s_6" false) :=
+  ⟨cex_emit, by decide, by decide⟩
+
+/-- Statement 1 for ALL scripts (without the scoping hypotheses). -/
+def no_goto_to_next_label_full : Prop :=
+  ∀ (o : Opts) (patches : List ((Nat × Nat) × String)) (tl : List String) (s : Script)
+    (lines : List Line), emitScript o patches tl s = .ok lines →
+    ∀ k L, lines[k]? = some (.goto_ L) → ∀ g, nextVisible (lines.drop (k + 1)) ≠ some (.labelDef L g)
+
+/-- … is false of the model (witness: the ill-scoped `cexScript`, unoptimised). -/
+theorem not_no_goto_to_next_label_full : ¬ no_goto_to_next_label_full := by
+  intro h
+  exact h { optimize := false } [] [] cexScript cexLines cex_emit 15 "s_6" (by decide) false (by decide)
+
+/-- the hypothesis that fails for `cexScript`: it is not well scoped (its scope ids are distinct) -/
+example : ¬ ScopesWellFormed cexScript.body := by
+  simp [ScopesWellFormed, cexScript, WFL, WFS, WFC]
+example : ScopeIdsDistinct cexScript.body := by unfold ScopeIdsDistinct; decide
+
+def cexTable : List Chunk :=
+  match scriptChunks cexScript.body with | .ok c => c | .error _ => []
+
+theorem cexTable_ok : scriptChunks cexScript.body = .ok cexTable := rfl
+
+/-- … and indeed its chunk table violates `FwdUnique`: chunks 4 and 5 (positions 3 and 2 of the
+table) both have tail 6 -/
+example : ¬ FwdUnique cexTable := by
+  intro h
+  have := h (cexTable[3]'(by decide)) (List.getElem_mem _) (cexTable[2]'(by decide)) (List.getElem_mem _) 6
+    (by decide) (by decide) (by decide) (by decide)
+  revert this
+  decide
+
+/-! ### 2. no generated sub-label that nothing refers to -/
+
+theorem leaves_of_facts {o : Opts} {patches : List ((Nat × Nat) × String)} {s : Script}
+    {lines : List Line} {chunks : List Chunk} {order : List Nat}
+    (F : EmitFacts o patches s lines chunks order) (hl : LeavesL RefLeaf s.body) :
+    ∀ id ∈ order, ∀ t e f, (chunkOf chunks id).branch = .leaf t e f → RefLeaf e := by
+  intro id hid t e f hb
+  exact scriptChunks_leaves s.body chunks hl F.hc _ (List.mem_of_find?_eq_some (F.found id hid)) t e f hb
+
+/-- **Statement 2 (main theorem), either order**: if the line `name_id:` for a chunk id `id ≠ 0` of
+the table is among the emitted lines, some generated jump / `case` line names `name_id` — provided
+every condition leaf renders a conditional jump (`RefLeaf`). -/
+theorem sub_label_referenced (o : Opts) (patches : List ((Nat × Nat) × String))
+    (tl : List String) (s : Script) (lines : List Line) (hl : LeavesL RefLeaf s.body)
+    (he : emitScript o patches tl s = .ok lines) :
+    ∀ chunks, scriptChunks s.body = .ok chunks →
+      ∀ id g, id ≠ 0 → id ∈ chunks.map (·.id) → Line.labelDef (jumpLabel s.name id) g ∈ lines →
+        ∃ l ∈ lines, C04.refOf l = some (jumpLabel s.name id) := by
+  obtain ⟨chunks, order, F⟩ := emit_facts o patches tl s lines he
+  intro chunks' hc'
+  have : chunks' = chunks := by
+    have := hc'.symm.trans F.hc
+    injection this
+  subst this
+  exact sub_label_referenced_of o patches s.name chunks' _ order lines F.hls F.hyg (leaves_of_facts F hl)
+
+/-- Statement 2 for leaves as the parser builds them. -/
+theorem sub_label_referenced_wf (o : Opts) (patches : List ((Nat × Nat) × String))
+    (tl : List String) (s : Script) (lines : List Line) (hl : LeavesL Spec.WellFormedLeaf s.body)
+    (he : emitScript o patches tl s = .ok lines) :
+    ∀ chunks, scriptChunks s.body = .ok chunks →
+      ∀ id g, id ≠ 0 → id ∈ chunks.map (·.id) → Line.labelDef (jumpLabel s.name id) g ∈ lines →
+        ∃ l ∈ lines, C04.refOf l = some (jumpLabel s.name id) := by
+  obtain ⟨chunks, order, F⟩ := emit_facts o patches tl s lines he
+  intro chunks' hc'
+  have : chunks' = chunks := by
+    have := hc'.symm.trans F.hc
+    injection this
+  subst this
+  refine sub_label_referenced_of o patches s.name chunks' _ order lines F.hls F.hyg ?_
+  intro id hid t e f hb
+  exact wellFormed_refLeaf e (scriptChunks_leaves s.body chunks' hl F.hc _
+    (List.mem_of_find?_eq_some (F.found id hid)) t e f hb)
+
+/-- Statement 2, chunk-level form: the label line emitted in front of the body of a chunk `id ≠ 0`
+of the order (`lbl … id`, non-empty exactly when `id` was registered) comes with a generated
+jump / `case` line naming it. -/
+theorem sub_label_referenced_chunk (o : Opts) (patches : List ((Nat × Nat) × String))
+    (tl : List String) (s : Script) (lines : List Line) (hl : LeavesL RefLeaf s.body)
+    (he : emitScript o patches tl s = .ok lines) :
+    ∃ chunks order, scriptChunks s.body = .ok chunks ∧ C05.chunkOrder o chunks = .ok order ∧
+      lines = layout o patches s.name chunks (s.scope == .GLOBAL) (regsOf o patches s.name chunks order) order ∧
+      ∀ id ∈ order, id ≠ 0 →
+        lbl s.name (s.scope == .GLOBAL) (regsOf o patches s.name chunks order) id ≠ [] →
+        ∃ l ∈ lines, C04.refOf l = some (jumpLabel s.name id) := by
+  obtain ⟨chunks, order, F⟩ := emit_facts o patches tl s lines he
+  refine ⟨chunks, order, F.hc, F.ho, F.hls, ?_⟩
+  intro id _ hid0 hne
+  have hreg : id ∈ regsOf o patches s.name chunks order := by
+    unfold lbl at hne
+    split at hne
+    · rename_i hc
+      simpa [hid0] using hc
+    · exact absurd rfl hne
+  rw [F.hls]
+  exact regsOf_referenced o patches s.name chunks _ _ order (leaves_of_facts F hl) id hreg
+
+/-- Every label line of an emitted script is the script's own label, a label statement of one of
+its chunks, or is named by a generated jump / `case` line. -/
+theorem every_label_accounted (o : Opts) (patches : List ((Nat × Nat) × String))
+    (tl : List String) (s : Script) (lines : List Line) (hl : LeavesL RefLeaf s.body)
+    (he : emitScript o patches tl s = .ok lines) :
+    ∃ chunks, scriptChunks s.body = .ok chunks ∧
+      ∀ L g, Line.labelDef L g ∈ lines →
+        L = s.name ∨ (∃ c ∈ chunks, (L, g) ∈ stmtLabels c.statements) ∨
+        ∃ l ∈ lines, C04.refOf l = some L := by
+  obtain ⟨chunks, order, F⟩ := emit_facts o patches tl s lines he
+  refine ⟨chunks, F.hc, ?_⟩
+  intro L g hm
+  have hm' := hm
+  rw [F.hls] at hm'
+  obtain ⟨pre, c, rest, hord, hp⟩ := (mem_layout o patches s.name chunks _ _ order _).1 hm'
+  have hc : c ∈ order := by rw [hord]; simp
+  rcases label_in_piece' o patches s.name chunks _ _ c _ _ g hp with ⟨h1, h2⟩ | h
+  · rcases h2 with rfl | h2
+    · left; rw [h1]; simp [chunkLabel]
+    · by_cases hc0 : c = 0
+      · left; rw [h1, hc0]; simp [chunkLabel]
+      · right; right
+        have hjl : jumpLabel s.name c = chunkLabel s.name c := by simp [chunkLabel, jumpLabel, hc0]
+        rw [h1, ← hjl, F.hls]
+        exact regsOf_referenced o patches s.name chunks _ _ order (leaves_of_facts F hl) c h2
+  · exact .inr (.inl ⟨_, List.mem_of_find?_eq_some (F.found c hc), h⟩)
+
+/-! ### the leaf hypothesis of statement 2 cannot be dropped -/
+
+/-- A leaf the parser cannot build: its type is none of FLAG / VAR / DEFEATED. -/
+def badLeaf : Script :=
+  { name := "s",
+    body := [.ite {} (.leaf { type := .ILLEGAL, operand := { lit := "X" } }) [cmdS "a"] [] none, cmdS "b"] }
+
+def badLeafLines : List Line :=
+  [ .labelDef "s" true, .goto_ "s_3", .blank,
+    .labelDef "s_1" false, .command "b" [], .terminator false, .blank,
+    .labelDef "s_2" false, .command "a" [], .goto_ "s_1", .blank,
+    .labelDef "s_3" false, .goto_ "s_1", .blank ]
+
+/-- **Counterexample**: the label `s_2:` (the body of the `if`) is emitted — the leaf chunk
+registered it — but the malformed leaf renders no conditional jump, so nothing names `s_2`. -/
+theorem badLeaf_counterexample :
+    emitScript { optimize := false } [] [] badLeaf = .ok badLeafLines ∧
+    Line.labelDef (jumpLabel "s" 2) false ∈ badLeafLines ∧
+    ∀ l ∈ badLeafLines, C04.refOf l ≠ some (jumpLabel "s" 2) := by
+  refine ⟨by rfl, by decide, by decide⟩
+
+/-! ### non-vacuity: a script with an `if` and a `while` (with a `break`), both orders -/
+
+def flagE (n : String) : OpExpr :=
+  { type := .FLAG, operator := .EQ, cmpValue := "TRUE", operand := { lit := n } }
+
+def c5Body : List Stmt :=
+  [ cmdS "lock",
+    .ite {} (.leaf (flagE "F")) [cmdS "msgbox"] [] none,
+    .while_ {} 1 (some (.leaf (flagE "G")))
+      [cmdS "step", .ite {} (.leaf (flagE "H")) [.brk {} 1] [] none],
+    cmdS "release" ]
+
+def c5Script : Script := { name := "S", body := c5Body }
+
+def c5Table : List Chunk :=
+  [ { id := 9, branch := .leaf 8 (flagE "H") (some 5) },
+    { id := 8, returnID := some 5, branch := .breakCtx (some 4) },
+    { id := 5, returnID := some 4, branch := .jump 7 },
+    { id := 6, returnID := some 5, statements := [cmdS "step"], branch := .jump 9 },
+    { id := 7, branch := .leaf 6 (flagE "G") (some 4) },
+    { id := 4, statements := [cmdS "release"] },
+    { id := 3, branch := .leaf 2 (flagE "F") (some 1) },
+    { id := 2, returnID := some 1, statements := [cmdS "msgbox"] },
+    { id := 1, returnID := some 4, branch := .jump 5 },
+    { id := 0, returnID := some 1, statements := [cmdS "lock"], branch := .jump 3 } ]
+
+theorem c5Table_ok : scriptChunks c5Body = .ok c5Table := rfl
+
+theorem c5_order : C05.chunkOrder { optimize := true } c5Table = .ok [0, 3, 1, 5, 7, 4, 2, 6, 9, 8] := by
+  simp [C05.chunkOrder, optimizeChunkOrder, c5Table, optimizeLoop, optimizeLoop.pick, scanUnvisited,
+    findChunk, tailId]
+
+def c5LinesOpt : List Line :=
+  match renderBodies { optimize := true } [] "S" c5Table (c5Table.map fun c => chunkLabel "S" c.id) []
+      [0, 3, 1, 5, 7, 4, 2, 6, 9, 8] with
+  | .ok (bodies, jumps) =>
+    bodies.flatMap fun (id, ls) =>
+      (if id == 0 || jumps.contains id then [Line.labelDef (chunkLabel "S" id) (id == 0 && true)] else []) ++ ls
+  | .error _ => []
+
+def c5Lines (b : Bool) : List Line :=
+  if b then c5LinesOpt
+  else
+    match renderChunks { optimize := false } [] c5Table "S" true [] with
+    | .ok l => l
+    | .error _ => []
+
+theorem c5_emit (b : Bool) : emitScript { optimize := b } [] [] c5Script = .ok (c5Lines b) := by
+  rw [C05.emitScript_eq]
+  simp only [c5Script, c5Table_ok]
+  cases b
+  · rfl
+  · rw [C05.renderChunks_eq, c5_order]
+    rfl
+
+theorem c5_scopes : ScopeIdsDistinct c5Body := by unfold ScopeIdsDistinct; decide
+theorem c5_wellFormed : ScopesWellFormed c5Body := by
+  simp [ScopesWellFormed, c5Body, WFL, WFS, WFE, cmdS]
+theorem c5_leaves : LeavesL RefLeaf c5Body := by
+  simp [c5Body, LeavesL, LeavesS, LeavesE, CondLeaves, leavesOf, RefLeaf, flagE, cmdS]
+
+/-- the table property behind statement 1 for the unoptimised order -/
+example : FwdUnique c5Table := scriptChunks_fwdUnique c5Body c5Table c5_scopes c5_wellFormed c5Table_ok
+
+/-- all hypotheses of the two main theorems hold for `c5Script`, for both chunk orders -/
+example (b : Bool) := no_goto_to_next_label { optimize := b } [] [] c5Script (c5Lines b)
+  c5_scopes c5_wellFormed (c5_emit b)
+example (b : Bool) := no_goto_to_next_label_idx { optimize := b } [] [] c5Script (c5Lines b)
+  c5_scopes c5_wellFormed (c5_emit b)
+example := no_goto_to_next_label_opt { optimize := true } [] [] c5Script (c5Lines true) rfl (c5_emit true)
+example (b : Bool) := no_goto_to_next_chunk { optimize := b } [] [] c5Script (c5Lines b) (c5_emit b)
+example (b : Bool) := sub_label_referenced { optimize := b } [] [] c5Script (c5Lines b) c5_leaves
+  (c5_emit b) c5Table c5Table_ok
+example (b : Bool) := every_label_accounted { optimize := b } [] [] c5Script (c5Lines b) c5_leaves (c5_emit b)
+
+/-- … and the conclusions are not vacuous: unoptimised, line 2 is `goto S_3` and the next visible
+line is `S_1:`; optimised, line 12 is `goto S_1` and the next visible line is `S_6:`. -/
+example : (c5Lines false)[2]? = some (.goto_ "S_3") ∧
+    nextVisible ((c5Lines false).drop 3) = some (.labelDef "S_1" false) := by decide
+example : (c5Lines true)[12]? = some (.goto_ "S_1") ∧
+    nextVisible ((c5Lines true).drop 13) = some (.labelDef "S_6" false) := by decide
+/-- the sub-label `S_2:` is emitted for both orders, and `goto_if_set F, S_2` names it -/
+example (b : Bool) : Line.labelDef (jumpLabel "S" 2) false ∈ c5Lines b ∧
+    Line.gotoIfSet "F" (jumpLabel "S" 2) ∈ c5Lines b := by
+  cases b <;> decide
+
+#print axioms no_goto_to_next_label
+#print axioms no_goto_to_next_label_idx
+#print axioms no_goto_to_next_label_opt
+#print axioms no_goto_to_next_label_of_fwdUnique
+#print axioms no_goto_to_next_chunk
+#print axioms not_no_goto_to_next_label_full
+#print axioms unscoped_counterexample
+#print axioms sub_label_referenced
+#print axioms sub_label_referenced_wf
+#print axioms sub_label_referenced_chunk
+#print axioms every_label_accounted
+#print axioms badLeaf_counterexample
 
 end Pory.C05c
